@@ -256,7 +256,15 @@ def _decode(name, m):
             raise ValueError
         return (name, (_int(g[0]),), ab64(g[1]), (used, algs[used]))
     if name == "cisco_type7":
-        return (name, (), _int(g[0]), _hex(g[1]))  # (salt = offset into the fixed key, 0..52; the 'digest' is the enciphered password)
+        # a reversible encoding, not a digest: what a type-7 string carries is the PASSWORD, XORed with a fixed public key starting
+        # at offset 'salt' (0..52, wrapping). Two strings are the same record iff they decode to the same password (the key has
+        # repeated letters, so e.g. '031C' and '001C' both spell "x")
+        salt = _int(g[0])
+        if not 0 <= salt <= 52:
+            raise ValueError
+        key = b"dsfd;kfoA,.iyewrkldJKDHSUBsgvca69834ncxv9873254k;fg87"
+        enc = _hex(g[1])
+        return (name, (), None, bytes(b ^ key[(salt + i) % len(key)] for i, b in enumerate(enc)))
     if name == "fshp":
         variant, ssize, rounds = int(g[0]), int(g[1]), int(g[2])
         raw = base64.b64decode(g[3] + "=" * (-len(g[3]) % 4))
